@@ -13,7 +13,7 @@ Inductive op22 :=
 | O2Send (now dp pf ps prio sa : Z) (data : pl) (tl ff : Z)
 | O2Notify (now id : Z) (data : list Z)
 | O2Listener (now id : Z) (ext remote err : bool) (data : list Z)
-| O2Job (now : Z).
+| O2Job (now elapsed : Z).
 Inductive ev22 := B2 (o : op22) | C2.
 
 Definition onbase (m : node22) (f : node -> node) : act node22 := Done (with_base m (f (base m))) 0.
@@ -34,9 +34,9 @@ Definition handler22 (o : op22) (m : node22) : act node22 :=
   | O2Send now dp pf ps prio sa d tl ff => send_pgn22 m now dp pf ps prio sa (pl_bytes d) tl ff
   | O2Notify now id d => notify22 m now id d
   | O2Listener now id e r er d => listener22 m now id e r er d
-  | O2Job now => (fix clamp (a : act node22) : act node22 :=
+  | O2Job now el => (fix clamp (a : act node22) : act node22 :=
                     match a with
-                    | Done s r => Done s (Z.max r 0)
+                    | Done s r => Done s (Z.max (r - el) 0)
                     | Raise s e => Raise s e
                     | Emit s o k => Emit s o (fun s' => clamp (k s'))
                     end) (job_iter22 m now)
